@@ -10,6 +10,7 @@ import (
 
 	ch "github.com/ClickHouse/ch-go"
 	"github.com/ClickHouse/ch-go/chpool"
+	"github.com/ClickHouse/ch-go/proto"
 )
 
 // FreeCase is one free-running pool run: Users goroutines share one pool while its health checker runs with a short
@@ -64,7 +65,11 @@ func RunFree(fc FreeCase) (Event, error) {
 					defer cancel()
 					ops.Add(1)
 					var err error
-					switch rng.Intn(6) {
+					switch rng.Intn(7) {
+					case 6:
+						// a result column in a named time zone, decoded through inference (every user other zones first)
+						var res proto.Results
+						err = p.Do(octx, ch.Query{Body: "zone:" + Zones[(u*7+i)%len(Zones)], Result: res.Auto()})
 					case 0:
 						err = p.Ping(octx)
 					case 1:
@@ -138,3 +143,9 @@ func RunFree(fc FreeCase) (Event, error) {
 	return Event{"ev": "PoolFree", "id": fc.ID, "ops": ops.Load(), "panics": panics.Load(), "panic": fp, "dialed": n, "openAfterClose": open,
 		"errorsAfterClose": errsAfterClose.Load(), "unexpectedErrors": unexpected.Load(), "max": fc.Max, "closeEarly": fc.CloseEarly}, nil
 }
+
+// Zones are time zones a server may name in a column type.
+var Zones = []string{"Europe/Berlin", "Asia/Tokyo", "America/New_York", "UTC", "Europe/London", "Asia/Kolkata", "Australia/Sydney", "America/Sao_Paulo",
+	"Africa/Cairo", "Asia/Shanghai", "Europe/Moscow", "America/Los_Angeles", "Pacific/Auckland", "Asia/Dubai", "Europe/Paris", "America/Chicago",
+	"Asia/Singapore", "Europe/Madrid", "America/Toronto", "Asia/Seoul", "Europe/Rome", "America/Mexico_City", "Asia/Jakarta", "Europe/Amsterdam",
+	"Africa/Johannesburg", "Asia/Bangkok", "Europe/Vienna", "America/Denver", "Asia/Karachi", "Europe/Warsaw", "America/Bogota", "Asia/Tehran"}
